@@ -19,7 +19,9 @@ macro_rules! h {
         #[kani::stub(std::alloc::alloc, alloc_stub)]
         #[kani::stub(alloc::alloc::dealloc_nonnull, dealloc_stub)]
         fn $name() {
-            $body
+            crate::ghost::arm();
+            $body;
+            kani::cover!(true, "end of harness reached");
         }
     };
 }
@@ -115,6 +117,7 @@ macro_rules! mismatch {
         #[kani::stub(std::alloc::alloc, alloc_stub)]
         #[kani::stub(alloc::alloc::dealloc_nonnull, dealloc_stub)]
         fn $name() {
+            crate::ghost::arm();
             let recorded: usize = kani::any();
             let vals: [u16; $n] = kani::any();
             let a = Arc::from_header_and_slice(HeaderWithLength::new(7u8, recorded), &vals[..]);
@@ -137,6 +140,7 @@ mismatch!(r1p_into_thin_mismatch_n1, 1);
 #[kani::stub(std::alloc::alloc, alloc_stub)]
 #[kani::stub(alloc::alloc::dealloc_nonnull, dealloc_stub)]
 fn qp_into_thin_mismatch_never_returns() {
+    crate::ghost::arm();
     let recorded: usize = kani::any();
     kani::assume(recorded != 2);
     let a = Arc::from_header_and_slice(HeaderWithLength::new(7u8, recorded), &[1u16, 2][..]);
